@@ -179,12 +179,12 @@ around the duplicate-free call, every sub-call resolving `substances` itself) re
 duplicate-free call `balanceVia` for a SELECTION of the species given — a sub-list of the reactants and a sub-list
 of the products with no species on both sides.  With `balance_end_to_end` (applied to that selection) the returned
 dicts are balanced, positive, coprime with respect to this call's compositions. -/
-theorem duplicates_selection (mode : Mode) (allowDup : Bool) (solver : Mat → Candidate)
+theorem duplicates_selection (raw : RawMode) (allowDup : Bool) (solver : Mat → Candidate)
     (table : List (String × Comp)) (arg : SubstArg) (reac prod : List String)
-    (res : Result) (h : balanceCall mode allowDup solver table arg reac prod = .ok res) :
-    ∃ r' p', balanceVia mode solver table arg false false r' p' = .ok res ∧
+    (res : Result) (h : balanceCall raw allowDup solver table arg reac prod = .ok res) :
+    ∃ r' p', balanceVia raw.mode solver table arg false false r' p' = .ok res ∧
       (∀ s ∈ r', s ∈ reac) ∧ (∀ s ∈ p', s ∈ prod) ∧ (∀ s ∈ r', s ∉ p') :=
-  dupSearch_selection mode _ _ _ _ _ _ h
+  dupSearch_selection _ _ _ _ _ _ _ h
 
 /-- **minimalBySearch_sound** (clause "the 'smallest integers' mode returns a positive solution of minimal
 coefficient sum", as a verified certificate checker applied to each concrete ILP answer): if the bounded
